@@ -11,6 +11,7 @@ import (
 	"go/constant"
 	"go/token"
 	"go/types"
+	"os"
 	"sort"
 	"strconv"
 	"strings"
@@ -292,10 +293,24 @@ func (p *Prog) walk(f *Func, b *cfg.Block, st *pstate, out *[]*Path) {
 		p.walk(f, b.Succs[0], st, out)
 	case 2:
 		if b.Kind == cfg.KindRangeLoop {
-			// zero iterations and one iteration
-			s2 := st.clone()
-			p.walk(f, b.Succs[1], s2, out)
-			if st.visits[b.Succs[0].Index] < 1 {
+			// zero iterations and one iteration — except where the ranged list is known on this path: a list that is still
+			// empty is not entered, a local list that has just been given its first element is not skipped (gather first,
+			// handle afterwards, written as two loops of one function)
+			empty, nonEmpty := false, false
+			if rs, ok := b.Stmt.(*ast.RangeStmt); ok && st.visits[b.Succs[0].Index] < 1 {
+				if id, isId := ast.Unparen(rs.X).(*ast.Ident); isId {
+					if v, _ := f.Pkg.TypesInfo.Uses[id].(*types.Var); v != nil {
+						if cur, known := st.vars[v]; known && cur != nil {
+							empty, nonEmpty = knownEmptyList(cur), knownNonEmptyList(cur)
+						}
+					}
+				}
+			}
+			if !nonEmpty {
+				s2 := st.clone()
+				p.walk(f, b.Succs[1], s2, out)
+			}
+			if st.visits[b.Succs[0].Index] < 1 && !empty {
 				p.bindRange(f, b.Stmt, st)
 				p.walk(f, b.Succs[0], st, out)
 			}
@@ -329,9 +344,28 @@ func (p *Prog) walk(f *Func, b *cfg.Block, st *pstate, out *[]*Path) {
 					st.addFact(fa, cond)
 				}
 			}
-			p.walk(f, b.Succs[1], s2, out)
-			p.bindIndexLoop(f, b.Stmt, st)
-			p.walk(f, b.Succs[0], st, out)
+			// a counting loop over a list whose value is known on this path (see the range loop above)
+			cEmpty, cNonEmpty := false, false
+			if st.visits[b.Index] < 2 {
+				if bb, ok := stripConv(ct).Match("(< $I (len $X))"); ok {
+					if iv := stripConv(bb["$I"]); iv.IsAt("#0") || iv.Op == "key" || iv.Op == "keyfrom" {
+						cEmpty, cNonEmpty = knownEmptyList(bb["$X"]), knownNonEmptyList(bb["$X"]) && iv.IsAt("#0")
+					}
+				} else if nt := stripConv(ct); nt.Op == "nonempty" && len(nt.A) == 1 && st.visits[b.Index] < 2 {
+					// 0 < len(x), as the fact normaliser writes it
+					cEmpty, cNonEmpty = knownEmptyList(nt.A[0]), knownNonEmptyList(nt.A[0])
+				}
+			}
+			if os.Getenv("SVCLINT_DEBUG_LOOP") != "" {
+				fmt.Fprintf(os.Stderr, "LOOP %s ct=%s empty=%v nonEmpty=%v visits=%d\n", f.Name, ct, cEmpty, cNonEmpty, st.visits[b.Index])
+			}
+			if !cNonEmpty {
+				p.walk(f, b.Succs[1], s2, out)
+			}
+			if !cEmpty {
+				p.bindIndexLoop(f, b.Stmt, st)
+				p.walk(f, b.Succs[0], st, out)
+			}
 			return
 		}
 		if !pureTerm(ct) {
@@ -1601,6 +1635,15 @@ func decideFact(f Fact, facts FactSet) int {
 	}
 	if t.Op == "nonempty" && len(t.A) == 1 {
 		k := stripConv(t.A[0])
+		// a list whose construction is known: an empty literal / made list, or one that has been appended to
+		if (k.Op == "lit" || k.Op == "make" || k.Op == "append") && isSliceTypeTerm(k) {
+			if knownEmptyList(k) {
+				return res(false)
+			}
+			if knownNonEmptyList(k) {
+				return res(true)
+			}
+		}
 		if strings.HasSuffix(k.Op, "Iterator.Key") && len(k.A) == 1 && (k.A[0].Op == "sdk.KVStorePrefixIterator" || k.A[0].Op == "sdk.KVStoreReversePrefixIterator") {
 			return res(true) // keys returned by a prefix iterator start with the (non-empty) prefix
 		}
